@@ -37,7 +37,8 @@ type GhostStmt struct {
 
 type AssertSpec struct {
 	Clause
-	At string
+	At   string
+	Hint bool // proof hint: assumed only when proved; a failing hint is not a violation by itself
 }
 
 type FuncSpec struct {
@@ -115,7 +116,7 @@ var clauseKeywords = map[string]bool{
 	"func": true, "extern": true, "type": true, "global": true, "axiom": true, "requires": true, "ensures": true,
 	"modifies": true, "decreases": true, "loop": true, "invariant": true, "ghost": true, "assert": true,
 	"calls": true, "pure": true, "trusted": true, "returns_elem": true, "opaque": true, "let": true, "nosafety": true,
-	"package": true, "field": true, "terminates": true, "macro": true, "lemma": true, "use": true,
+	"package": true, "field": true, "terminates": true, "macro": true, "lemma": true, "use": true, "hint": true,
 }
 
 // Macro is a textual abbreviation usable in contract expressions: macro NAME(a, b) = body.
@@ -417,14 +418,14 @@ func (cs *Contracts) ParseFile(path string) error {
 					st = strings.TrimSpace(st[:k])
 				}
 				curF.Uses = append(curF.Uses, UseSpec{Call: st, At: at, File: path, Line: rc.line})
-			case "assert":
+			case "assert", "hint":
 				at := "exit"
 				st := rc.rest
 				if k := strings.LastIndex(st, " at "); k >= 0 {
 					at = strings.TrimSpace(st[k+4:])
 					st = strings.TrimSpace(st[:k])
 				}
-				curF.Asserts = append(curF.Asserts, AssertSpec{Clause: parseClause(st, path, rc.line), At: at})
+				curF.Asserts = append(curF.Asserts, AssertSpec{Clause: parseClause(st, path, rc.line), At: at, Hint: rc.kw == "hint"})
 			}
 		}
 	}
